@@ -9,6 +9,7 @@ Record addsub_params := {
   ap_add_prog : list instr;     (* asm! template of schoolbook_add_assign_x86_64 *)
   ap_sub_prog : list instr;     (* asm! template of schoolbook_sub_assign_x86_64 *)
   ap_add_len_cmp : cmpop;       (* AddAssign<&BigUint>: `self_len < other.data.len()` *)
+  ap_callsites : bool;          (* both asm call sites pass (a_lo, b-prefix, common length), cf. tools/extractors/addsub.py *)
 }.
 
 (** _addcarry_u64 / _subborrow_u64 *)
